@@ -49,15 +49,27 @@ Proof.
     rewrite (Z.div_mod (Z.of_N m) (2 ^ (- e))) at 1 by lia. rewrite M. lia.
 Qed.
 
+Lemma odd_tz p : 0 <= trailing_zeros p /\ Zpos p = Zpos (odd_part p) * 2 ^ trailing_zeros p.
+Proof.
+  induction p as [p IH|p IH|]; cbn [odd_part trailing_zeros].
+  - rewrite Z.pow_0_r. lia.
+  - destruct IH as [H0 H]. split; [lia|].
+    rewrite Z.pow_add_r, Z.pow_1_r by lia. rewrite Pos2Z.inj_xO, H at 1. ring.
+  - rewrite Z.pow_0_r. lia.
+Qed.
+
 Lemma f_int_value_of_int z : f_int_value (float_of_int z) = Some z.
 Proof.
-  unfold float_of_int, f_int_value. cbn [Z.leb Z.compare].
-  change (0 <=? 0) with true. cbv iota.
-  rewrite Z.pow_0_r, Z.mul_1_r, N2Z.inj_abs_N.
-  f_equal. unfold signed. destruct (z <? 0) eqn:E.
-  - apply Z.ltb_lt in E. lia.
-  - apply Z.ltb_ge in E. lia.
+  unfold float_of_int. destruct z as [|p|p]; cbn [Z.abs_N Z.ltb Z.compare f_norm].
+  - reflexivity.
+  - destruct (odd_tz p) as [H0 H]. unfold f_int_value.
+    rewrite Z.add_0_l. apply Z.leb_le in H0. rewrite H0. cbn [signed Z.of_N]. rewrite <- H. reflexivity.
+  - destruct (odd_tz p) as [H0 H]. unfold f_int_value.
+    rewrite Z.add_0_l. apply Z.leb_le in H0. rewrite H0. cbn [signed Z.of_N]. rewrite <- H. reflexivity.
 Qed.
+
+Lemma float_of_int_fin z : exists n m e, float_of_int z = FFin n m e.
+Proof. unfold float_of_int. destruct z; cbn [Z.abs_N f_norm]; eauto. Qed.
 
 (* ------------------------------------------------------------------ odd part *)
 
@@ -196,7 +208,7 @@ Section Oracles.
       cbn [in_domain].
     - left. destruct b; eauto.
     - right. eauto.
-    - right. unfold float_of_int. eauto.
+    - right. destruct (float_of_int_fin z) as [n [m [e E]]]. rewrite E. eauto.
     - right. eauto.
   Qed.
 
@@ -317,7 +329,9 @@ Section Oracles.
         * cbn [coerce_float]. destruct b; reflexivity.
         * right. eexists _, _. split; [reflexivity|]. split; [reflexivity|]. apply f_int_value_of_int.
       + eexists. split; [reflexivity | left; reflexivity].
-      + eexists. split; [reflexivity | left; reflexivity].
+      + exists (PFloat (float_of_int z)). split; [|left; reflexivity].
+        cbn [coerce_float]. unfold float_from_float.
+        destruct (float_of_int_fin z) as [n [m [e E]]]. rewrite E. reflexivity.
       + eexists. split; [reflexivity | left; reflexivity].
     - apply serialize_string_text in H as [s ->]. eexists. split; [reflexivity | left; reflexivity].
     - apply serialize_boolean_bool in H as [b ->]. eexists. split; [reflexivity | left; reflexivity].
